@@ -166,7 +166,7 @@ def days_job(name, k, span, twin=False, max_s=800, first_kind=None,
     if k > 1:
       orders.append(list(reversed(range(k))))
     if k > 2:
-      orders.append([1, 2, 0])
+      orders.append(list(range(1, k)) + [0])
     for od in orders:
       try:
         days = U.expand_time_windows(U.find_days_to_exclude(
